@@ -133,6 +133,15 @@ CHECKS['C11'] = dict(
     design='4 (C11)',
     technique='Coq proof that evaluation of plain trees is the identity on content (memo freshness invariant) + typing of values; sampled vm_compute correspondence; source-fingerprint, re-evaluation, mutation-isolation and staged-build oracles for replays')
 
+CHECKS['C19'] = dict(
+    text='Machine-checked: C19_deepcopy_same_explicit (for EVERY tree over all kinds and flag combinations the deep copy has the same kinds, keys, order, scalars, targets, priorities, explicit '
+         'delete/allow_new/safe marks, source-level safety, metadata and source files), C19_deepcopy_content, C19_deepcopy_exact (identical whenever the implicit flags are what the ancestors '
+         'imply), with a computed witness that merged trees need not be consistent (C19_inconsistent_tree_copy_differs). The copy model (re-adoption of every child; pickle = identity) is tied '
+         'to copy.deepcopy / pickle by correspondence on all raw flags. Partial: "shares no node", "mutating either never affects the other" are object-identity facts outside a functional model '
+         '- decided by the id-disjointness / mutation oracles; "merges and evaluates exactly like the original" by the merge+evaluate oracle.',
+    design='4 (C19), 6 (D12)',
+    technique='Coq proofs about the re-adoption copy model (Sim / Consistent); vm_compute correspondence deepcopy = recopy, pickle = identity; node-by-node, id-disjointness, merge/evaluate and mutation oracles for replays')
+
 NOT_APPLICABLE = {}
 
 
